@@ -133,6 +133,14 @@ fn c06_configs(tier: Tier) -> Vec<TcpCfg> {
         c.mode = Mode::ServerSpeaksFirst;
         c.send_cap = 4;
     });
+    // half close where the other side stays silent for a long time after it has seen the
+    // FIN: only re-ACKs of the retransmitted FIN keep the closer's retransmit budget alive
+    add("halfclose-silent-server-t1-s1-D1", &|c| {
+        c.c_chunks = vec![1];
+        c.s_bytes = 1;
+        c.server_reply_late = true;
+        c.w = 1;
+    });
     add("loopback-t4", &|c| {
         c.topo = Topo::Loopback;
         c.loopback_mtu = 42;
